@@ -3,6 +3,7 @@ P = {'id': 'C06',
  'level': 'proof',
  'theorems': ['norm_avoids_markers',
               'std_refines_map',
+              'smallmap_refines_map',
               'remove_loop_is_get_loop',
               'sentinel_unmapped_refuted',
               'tombstone_first_slot_refuted',
